@@ -90,12 +90,17 @@ def eval_in_original_context(f, args, caller_fn_scope):
   # to the innermost function call.
   ctx_frame = _find_originating_frame(caller_fn_scope, innermost=True)
 
-  args = (
-      args[0],
-      ctx_frame.f_globals if len(args) < 2 else args[1],
-      ctx_frame.f_locals if len(args) < 3 else args[2],
-  )
-  return f(*args)
+  # Namespaces that the caller passed are used as passed. As with eval itself,
+  # omitted (or None) globals default to those of the calling function; omitted
+  # (or None) locals default to the locals of the calling function only when no
+  # globals were given, otherwise to the globals dictionary.
+  globals_ = args[1] if len(args) > 1 else None
+  locals_ = args[2] if len(args) > 2 else None
+  if globals_ is None:
+    globals_ = ctx_frame.f_globals
+    if locals_ is None:
+      locals_ = ctx_frame.f_locals
+  return f(args[0], globals_, locals_)
 
 
 def super_in_original_context(f, args, caller_fn_scope):
